@@ -505,3 +505,68 @@ Example C09_src_nonvacuous :
   exists c toks, class_of O_sample 3 (s2p "A") sample_schema = Some c /\ class_toks c = Some toks
                  /\ rt O_sample toks = sample_text.
 Proof. exact fragment_inhabited. Qed.
+
+(* ------------------------------------------------------------------------------------------------
+   Composition: the token model only uses sites of the generated table (Schema/CodegenSitesProofs.v), so for every
+   schema document of the fragment the generator's own (translated) source emits a text in which every schema string
+   at a literal site went through repr() and is read back exactly, whatever it contains; the whole text is read back
+   as exactly the schema's strings as soon as its NAMES are identifiers. *)
+From TP Require Import Schema.CodegenSitesProofs Schema.CodegenEdgeProofs.
+
+Theorem C09_field_toks_sites : forall f, sites_ok (field_toks f) = true.
+Proof. exact field_toks_sites. Qed.
+
+Theorem C09_class_toks_sites : forall c toks, class_toks c = Some toks -> sites_ok toks = true.
+Proof. exact class_toks_sites. Qed.
+
+Theorem C09_src_literals_roundtrip : forall O n name sch c toks,
+    class_of O n name sch = Some c -> class_toks c = Some toks ->
+    schema_to_struct_code O (2 * n + 1) (PStr name) sch (PList []) = Ok (PStr (render (co_printable O) emit_sites toks))
+    /\ (forall site s, In (TStr site s) toks ->
+          known_site site = true
+          /\ (str_in site name_sites = false ->
+              str_in site literal_sites = true /\ site_disc emit_sites site = Repr
+              /\ (valid_str s = true ->
+                  lex_tok py_keywords (site_disc emit_sites site)
+                          (render_tok (co_printable O) emit_sites (TStr site s)) = Some (s, []))))
+    /\ (names_fine py_keywords toks = true -> well_sep toks = true ->
+        relex py_keywords emit_sites (map shape_of toks) (render (co_printable O) emit_sites toks) = Some (leaves toks)).
+Proof. exact src_literals_roundtrip. Qed.
+
+(* the two inputs the token model cannot express, stated about the generated functions themselves *)
+Theorem C09_src_ref_ignores_siblings : forall O rec kv r,
+    dict_get kv (PStr (s2p "$ref")) = Some (PStr r) ->
+    convert_to_field_code_body O rec (PDict kv) (PList []) = Ok (PStr (skipn 14 r)).
+Proof. exact ref_ignores_siblings. Qed.
+
+Theorem C09_src_ref_default_drops_required : forall O name p r dv,
+    schema_to_struct_code O 1 (PStr name) (PDict (ref_default_schema p r dv)) (PList [])
+    = Ok (PStr (rt O (join [nl] [[raw "class "; TStr (s2p "struct_name") name; raw "(Structure):"];
+                                 [raw "    "; TStr (s2p "property_name") p; raw ": "; TStr (s2p "ref") (skipn 14 r)];
+                                 [];
+                                 raw "    _required = " :: list_toks (s2p "required") []]))).
+Proof. exact ref_default_drops_required. Qed.
+
+Theorem C09_src_map_items_emitted : forall O n rec kv v nums,
+    rec_spec O n rec ->
+    py_truthy (getdef kv (s2p "patternProperties") PNone) = false ->
+    py_truthy (getdef kv (s2p "additionalProperties") PNone) = true ->
+    field_of O n (getdef kv (s2p "additionalProperties") PNone) = Some v ->
+    nums_of O kv map_size_keys = Some nums ->
+    exists ps, MapMapper__get_paramlist_from_schema O rec (PDict kv) = Ok (PList ps)
+               /\ ptexts O ps = Ok (map (rt O) (model_params (FMap (Some v) None) ++ num_params nums)).
+Proof. exact map_items_emitted. Qed.
+
+Print Assumptions C09_field_toks_sites.
+Print Assumptions C09_class_toks_sites.
+Print Assumptions C09_src_literals_roundtrip.
+Print Assumptions C09_src_ref_ignores_siblings.
+Print Assumptions C09_src_ref_default_drops_required.
+Print Assumptions C09_src_map_items_emitted.
+
+(* the hypotheses of the round trip hold of the sample document (names are identifiers, strings are followed by a
+   separator) *)
+Example C09_src_literals_nonvacuous :
+  exists c toks, class_of O_sample 3 (s2p "A") sample_schema = Some c /\ class_toks c = Some toks
+                 /\ names_fine py_keywords toks = true /\ well_sep toks = true.
+Proof. eexists. eexists. split; [vm_compute; reflexivity|]. split; [vm_compute; reflexivity|]. split; vm_compute; reflexivity. Qed.
